@@ -89,6 +89,18 @@ func zzBuild(backend, nF, nP, nA, nR int, hi uint64) *zzState {
 		txp.alloctx = append(txp.alloctx, a)
 		sh.cache[id] = struct{}{}
 	}
+	// lastReleaseBegin: 0 (never matched by a releaseRange) or the begin b of the last matching
+	// releaseRange(b, e) with b <= w <= e, which removed every entry with b <= alloctx; so a < b remains.
+	if zz.Param("lrb", 0) == 1 {
+		for wi, txp := range sh.pending {
+			b := common.Txid(zz.U64("lrb"))
+			zz.Assume(b <= wi)
+			for _, a := range txp.alloctx {
+				zz.Assume(zz.Or(b == 0, a < b))
+			}
+			txp.lastReleaseBegin = b
+		}
+	}
 	// A: allocs entries, keys disjoint from F and P
 	for i := 0; i < nA; i++ {
 		id := common.Pgid(zz.U64("Aid"))
@@ -323,4 +335,250 @@ func zzCatch(f func()) (panicked bool) {
 	}()
 	f()
 	return false
+}
+
+// HarnessRelease: ReleasePendingPages from an arbitrary valid state with symbolic reader txids.
+// Safety: an entry (p, a, w) may become free only if no registered reader r has lo(a) <= r < w
+// (a == 0: allocator unknown, treated as "old"). Liveness: it must become free if there is no reader,
+// if w is below every reader, or if a != 0 and no reader lies in [a, w].
+func HarnessRelease() {
+	backend := zz.Param("backend", 0)
+	s := zzBuild(backend, zz.Param("nF", 2), zz.Param("nP", 3), 0, zz.Param("nR", 2), 1<<40)
+	before := zzCopyIDs(s.F)
+	cacheBefore := len(s.sh.cache)
+	s.fl.ReleasePendingPages()
+	after := zzCopyIDs(s.fl.freePageIds())
+	moved := 0
+	for _, q := range s.P {
+		needed := false
+		readerInSpan := false
+		belowAll := true
+		for _, r := range s.R {
+			needed = zz.Or(needed, zz.And(zz.Or(q.a == 0, q.a <= r), r < q.w))
+			readerInSpan = zz.Or(readerInSpan, zz.And(q.a <= r, r <= q.w))
+			belowAll = zz.And(belowAll, q.w < r)
+		}
+		must := zz.Or(len(s.R) == 0, zz.Or(belowAll, zz.And(q.a != 0, !readerInSpan)))
+		isFree := zzContains(after, q.id)
+		// still pending?
+		isPending := false
+		if txp := s.sh.pending[q.w]; txp != nil {
+			isPending = zzContains(txp.ids, q.id)
+		}
+		zz.AssertUnless(zz.Implies(isFree, !needed), zzHasReaderZero(s.R), "release/safety-no-reader-version-contains-it", "C09/reader-txid-0-release-wraps")
+		zz.Assert(zz.Implies(must, isFree), "release/liveness")
+		zz.Assert(isFree != isPending, "release/free-xor-pending")
+		if isFree {
+			moved++
+			zz.Reach("released")
+		} else {
+			zz.Reach("withheld")
+		}
+	}
+	zz.Assert(len(after) == len(before)+moved, "release/free-grows-by-moved")
+	for _, id := range before {
+		zz.Assert(zzContains(after, id), "release/free-ids-kept")
+	}
+	zz.Assert(len(s.sh.cache) == cacheBefore, "release/cache-unchanged")
+	zzRI(s, "release/post")
+}
+
+func zzHasReaderZero(rs []common.Txid) bool {
+	r := false
+	for _, t := range rs {
+		r = zz.Or(r, t == 0)
+	}
+	return r
+}
+
+// HarnessReaders: AddReadonlyTXID / RemoveReadonlyTXID have multiset semantics.
+func HarnessReaders() {
+	backend := zz.Param("backend", 0)
+	s := zzBuild(backend, 1, 0, 0, zz.Param("nR", 3), 1<<40)
+	t := common.Txid(zz.U64("t"))
+	zz.Assume(uint64(t) < 1<<40)
+	count := func(rs []common.Txid, x common.Txid) int {
+		n := 0
+		for _, r := range rs {
+			if r == x {
+				n++
+			}
+		}
+		return n
+	}
+	probe := common.Txid(zz.U64("probe"))
+	c0 := count(s.sh.readonlyTXIDs, probe)
+	switch zz.Choose(3) {
+	case 0:
+		zz.Reach("add")
+		s.fl.AddReadonlyTXID(t)
+		exp := c0
+		if probe == t {
+			exp++
+		}
+		zz.Assert(count(s.sh.readonlyTXIDs, probe) == exp, "readers/add-multiset")
+		zz.Assert(len(s.sh.readonlyTXIDs) == len(s.R)+1, "readers/add-len")
+	case 1:
+		zz.Reach("remove")
+		had := count(s.sh.readonlyTXIDs, t)
+		s.fl.RemoveReadonlyTXID(t)
+		exp := c0
+		if probe == t && had > 0 {
+			exp--
+		}
+		zz.Assert(count(s.sh.readonlyTXIDs, probe) == exp, "readers/remove-one-occurrence")
+		if had > 0 {
+			zz.Assert(len(s.sh.readonlyTXIDs) == len(s.R)-1, "readers/remove-len")
+		} else {
+			zz.Assert(len(s.sh.readonlyTXIDs) == len(s.R), "readers/remove-absent-noop")
+		}
+	case 2:
+		// two removals in a row (no sort in between) behave as two multiset removals
+		zz.Reach("remove-twice")
+		t2 := common.Txid(zz.U64("t2"))
+		had := count(s.sh.readonlyTXIDs, t)
+		s.fl.RemoveReadonlyTXID(t)
+		had2 := count(s.sh.readonlyTXIDs, t2)
+		s.fl.RemoveReadonlyTXID(t2)
+		exp := c0
+		if probe == t && had > 0 {
+			exp--
+		}
+		if probe == t2 && had2 > 0 {
+			exp--
+		}
+		zz.Assert(count(s.sh.readonlyTXIDs, probe) == exp, "readers/remove-twice-multiset")
+	}
+}
+
+// HarnessRollback: k symbolic Allocate/Free steps by transaction t, then Rollback(t) and the reload
+// the real code performs afterwards, restore the begin-state exactly.
+func HarnessRollback() {
+	backend := zz.Param("backend", 0)
+	sync := zz.Param("sync", 1) == 1
+	s := zzBuild(backend, zz.Param("nF", 3), zz.Param("nP", 1), zz.Param("nA", 1), 0, 1<<40)
+	t := common.Txid(zz.U64("t"))
+	zz.Assume(uint64(t) < 1<<40)
+	for _, q := range s.P {
+		zz.Assume(q.w < t)
+	}
+	for _, a := range s.Avals {
+		zz.Assume(a < t)
+	}
+	beginFree := zzCopyIDs(s.F)
+	beginPend := s.fl.PendingCount()
+	// the persisted image of the begin state, as the previous commit wrote it
+	buf := make([]byte, 4096)
+	pg := (*common.Page)(unsafe.Pointer(&buf[0]))
+	s.fl.Write(pg)
+	allFree := zzCopyIDs(s.fl.freePageIds())
+	steps := zz.Param("steps", 2)
+	pbuf := make([]byte, 64)
+	nfreed := 0
+	free1 := func() {
+		p := (*common.Page)(unsafe.Pointer(&pbuf[0]))
+		p.SetId(s.Akeys[nfreed])
+		p.SetOverflow(0)
+		nfreed++
+		if zzCatch(func() { s.fl.Free(t, p) }) {
+			zz.Assume(false)
+		}
+	}
+	// a write transaction that reaches Rollback with allocations has also freed pages (commit frees
+	// the old root / freelist page before it allocates): the first step is a Free.
+	zz.Reach("step-free")
+	free1()
+	for i := 1; i < steps; i++ {
+		if nfreed >= len(s.Akeys) || zz.Choose(2) == 0 {
+			zz.Reach("step-allocate")
+			n := 1 + zz.Choose(2)
+			s.fl.Allocate(t, n)
+		} else {
+			zz.Reach("step-free")
+			free1()
+		}
+	}
+	s.fl.Rollback(t)
+	if sync {
+		s.fl.Reload(pg)
+	} else {
+		s.fl.NoSyncReload(allFree)
+	}
+	zz.Assert(zzSameIDs(zzCopyIDs(s.fl.freePageIds()), beginFree), "rollback/free-restored")
+	zz.Assert(s.fl.PendingCount() == beginPend, "rollback/pending-restored")
+	for i, k := range s.Akeys {
+		v, ok := s.sh.allocs[k]
+		zz.Assert(ok && v == s.Avals[i], "rollback/allocs-restored")
+	}
+	zz.Assert(len(s.sh.allocs) == len(s.Akeys), "rollback/allocs-no-extra")
+	for _, q := range s.P {
+		txp := s.sh.pending[q.w]
+		zz.Assert(txp != nil && zzContains(txp.ids, q.id), "rollback/pending-entries-kept")
+	}
+	zzRI(s, "rollback/post")
+}
+
+// HarnessWriteRead: Write then Read into a fresh list of either backend: F' = F ∪ ⋃P, P' = ∅; the page
+// image is identical for both backends; EstimatedWritePageSize never underestimates.
+func HarnessWriteRead() {
+	s0 := zzBuild(0, zz.Param("nF", 3), zz.Param("nP", 2), 0, 0, 1<<40)
+	est := s0.fl.EstimatedWritePageSize()
+	buf := make([]byte, 4096)
+	pg := (*common.Page)(unsafe.Pointer(&buf[0]))
+	s0.fl.Write(pg)
+	n := len(s0.F) + len(s0.P)
+	zz.Assert(est >= 16+8*n, "rw/estimate-not-under")
+	zz.Assert(pg.IsFreelistPage(), "rw/flag")
+	zz.Assert(int(pg.Count()) == n, "rw/count")
+	// independent reading of the page image: ids sorted ascending, exactly F ∪ P
+	for i := 0; i < n; i++ {
+		id := common.Pgid(zzLE64(buf, 16+8*i))
+		if i > 0 {
+			zz.Assert(common.Pgid(zzLE64(buf, 16+8*(i-1))) < id, "rw/page-ids-sorted")
+		}
+		inP := false
+		for _, q := range s0.P {
+			inP = zz.Or(inP, q.id == id)
+		}
+		zz.Assert(zz.Or(zzContains(s0.F, id), inP), "rw/page-id-is-free-or-pending")
+	}
+	// same abstract state installed in the hashmap backend gives the same bytes
+	h, hs := zzNew(1)
+	ids := make(common.Pgids, len(s0.F))
+	copy(ids, s0.F)
+	h.Init(ids)
+	for w, txp := range s0.sh.pending {
+		c := &txPending{ids: zzCopyIDs(txp.ids), alloctx: append([]common.Txid{}, txp.alloctx...)}
+		hs.pending[w] = c
+		for _, id := range c.ids {
+			hs.cache[id] = struct{}{}
+		}
+	}
+	buf2 := make([]byte, 4096)
+	pg2 := (*common.Page)(unsafe.Pointer(&buf2[0]))
+	h.Write(pg2)
+	same := true
+	for i := 0; i < 16+8*n; i++ {
+		same = zz.And(same, buf[i] == buf2[i])
+	}
+	zz.Assert(same, "rw/backends-write-identical-bytes")
+	// read back into fresh lists
+	for backend := 0; backend < 2; backend++ {
+		f, fs := zzNew(backend)
+		f.Read(pg)
+		got := f.freePageIds()
+		zz.Assert(len(got) == n, "rw/read-count")
+		zz.Assert(f.PendingCount() == 0, "rw/read-no-pending")
+		if len(got) == n {
+			for i := 0; i < n; i++ {
+				zz.Assert(got[i] == common.Pgid(zzLE64(buf, 16+8*i)), "rw/read-ids")
+			}
+		}
+		zzRI(&zzState{fl: f, sh: fs}, "rw/read-post")
+	}
+	zz.Reach("done")
+}
+
+func zzLE64(b []byte, o int) uint64 {
+	return uint64(b[o]) | uint64(b[o+1])<<8 | uint64(b[o+2])<<16 | uint64(b[o+3])<<24 | uint64(b[o+4])<<32 | uint64(b[o+5])<<40 | uint64(b[o+6])<<48 | uint64(b[o+7])<<56
 }
